@@ -96,29 +96,50 @@ def run(ctx):
     with concurrent.futures.ThreadPoolExecutor(max_workers=4) as pool:
         results = list(pool.map(lambda ci: (ci, ptgrun.run_config(ctx, exe, runs, cfgs[ci], "c15-%d" % ci, window_ms=2000)),
                                 range(len(cfgs))))
-    for ci, (per, info) in results:
-        for r, evs in zip(runs, per):
-            ex = [{"e": "Prog", "prog": r["prog"], "pools": [list(g) for g in r["pools"]]}]
-            if evs is None:
-                ex.append({"e": "Crash", "what": "the process died before this run", "info": info["stderr"][-200:]})
+    def to_execution(r, evs, info):
+        ex = [{"e": "Prog", "prog": r["prog"], "pools": [list(g) for g in r["pools"]]}]
+        if evs is None:
+            ex.append({"e": "Crash", "what": "the process died before this run", "info": info["stderr"][-200:]})
+            return ex
+        for ev in evs:
+            k = ev.get("e")
+            if k in ("Start", "End"):
+                ex.append({"e": k, "sp": ev["tp"] % 64, "c": ev["c"], "p": ev["p"]})
+            elif k == "Run":
+                ex.append({"e": "Run"})
+            elif k == "TpDone":
+                ex.append({"e": "TpDone", "n": ev["n"]})
+            elif k == "Final":
+                ex.append({"e": "Final"})
             else:
-                for ev in evs:
-                    k = ev.get("e")
-                    if k in ("Start", "End"):
-                        ex.append({"e": k, "sp": ev["tp"] % 64, "c": ev["c"], "p": ev["p"]})
-                    elif k == "Run":
-                        ex.append({"e": "Run"})
-                    elif k == "TpDone":
-                        ex.append({"e": "TpDone", "n": ev["n"]})
-                    elif k == "Final":
-                        ex.append({"e": "Final"})
-                    else:
-                        ex.append({x: y for x, y in ev.items() if x not in ("s", "tp")})
-                if not evs or evs[-1].get("e") != "Final":
-                    ex.append({"e": "Crash", "what": "run did not reach its end", "info": info["stderr"][-200:]})
+                ex.append({x: y for x, y in ev.items() if x not in ("s", "tp")})
+        if not evs or evs[-1].get("e") != "Final":
+            ex.append({"e": "Crash", "what": "run did not reach its end", "info": info["stderr"][-200:]})
+        return ex
+
+    retry = {}
+    for ci, (per, info) in results:
+        for ri, (r, evs) in enumerate(zip(runs, per)):
+            ex = to_execution(r, evs, info)
+            if any(ev.get("e") in ("Timeout", "Runaway") for ev in ex):
+                retry.setdefault(ci, []).append(ri)       # re-run once with a 10x window before believing it
             executions.append(ex)
             metas.append({"program": r["prog"]["name"], "tags": r["entry"]["tags"], "members": len(r["pools"]),
-                          "globals": [list(g) for g in r["pools"]], "config": cfgs[ci]})
+                          "globals": [list(g) for g in r["pools"]], "config": cfgs[ci], "_key": (ci, ri)})
+    if retry:
+        def again_cfg(ci):
+            sub = [runs[ri] for ri in retry[ci]]
+            return ci, ptgrun.run_config(ctx, exe, sub, cfgs[ci], "c15-%d-again" % ci, window_ms=20000, timeout=600)
+        with concurrent.futures.ThreadPoolExecutor(max_workers=4) as pool:
+            for ci, (per, info) in pool.map(again_cfg, sorted(retry)):
+                for ri, evs in zip(retry[ci], per):
+                    ex = to_execution(runs[ri], evs, info)
+                    k = [i for i, m in enumerate(metas) if m["_key"] == (ci, ri)][0]
+                    if not any(ev.get("e") in ("Timeout", "Runaway") for ev in ex):
+                        ctx.extra["timeouts_not_confirmed"] = ctx.extra.get("timeouts_not_confirmed", 0) + 1
+                    executions[k] = ex
+    for m in metas:
+        m.pop("_key")
     ctx.evaluations = len(executions)
     ctx.extra["compositions"] = len(executions)
     ctx.extra["member_counts"] = sorted(set(len(r["pools"]) for r in runs))
@@ -142,7 +163,7 @@ def run(ctx):
                 m["members"], m["program"], m["tags"], m["config"], json.dumps(f.describe())[:700]),
                 {"meta": m, "events": f.execution, "detail": f.describe()},
                 key=("compound-completes-at-start" if early else None))
-    if not ctx.violations:
+    if not ctx.violations and not ctx.known_hits:
         cands = [executions[i] for i, m in enumerate(metas) if m["members"] in (2, 3)]
         if cands:
             def overlap(ex):        # the first body of the second member moved before the last End of the first
